@@ -527,7 +527,13 @@ impl<'a> Sem<'a> {
                 let pols: BTreeSet<Vec<u8>> = self.classes_mentioned(&m.amount)?.into_iter().filter_map(|k| k.map(|(p, _)| p)).collect();
                 for p in pols {
                     if let Some(rank) = policies.iter().position(|x| *x == p) {
-                        out.insert((1u8, rank as u32), data.clone());
+                        // one slot per policy: two blocks of one policy with different redeemers have no
+                        // denotation (whichever is kept, a written redeemer is lost)
+                        if let Some(old) = out.insert((1u8, rank as u32), data.clone()) {
+                            if old != data {
+                                return undef("two redeemers for one policy");
+                            }
+                        }
                     }
                 }
             }
